@@ -332,7 +332,8 @@ def slab_queries(tier, seed):
     """histories of schedule / complete / wake / dispatch over up to 8 manual tasks on one executor: tasks complete out
     of scheduling order and new ones are scheduled while older ones are pending"""
     rnd = random.Random(seed * 7 + 3)
-    out = ["slab s0 s1 d c0 d s2 c1 d c2 d d", "slab s0 s1 s2 d c1 d s3 s4 c0 d c3 c2 d c4 d d", "slab s0 c0 d w0 d s1 d c1 w1 d d"]
+    out = ["slab s0 s1 d c0 d s2 c1 d c2 d d", "slab s0 s1 s2 d c1 d s3 s4 c0 d c3 c2 d c4 d d", "slab s0 c0 d w0 d s1 d c1 w1 d d",
+           "slab s0 s1 s2 d c0 d x c1 w2 d", "slab s0 s1 x d"]
     for _ in range(150 if tier == "quick" else 4000):
         n = rnd.randrange(2, 9)
         nxt, sched, compl, ops = 0, [], set(), []
@@ -347,6 +348,11 @@ def slab_queries(tier, seed):
                 ops.append("w%d" % rnd.choice(sched))
             else:
                 ops.append("d")
+        if rnd.random() < 0.35:
+            # the executor is removed and dropped while futures are pending (their wakers live on outside it)
+            ops += ["x"] + [rnd.choice(["c%d" % rnd.choice(sched), "w%d" % rnd.choice(sched), "d"]) for _ in range(rnd.randrange(0, 4)) if sched]
+            out.append("slab " + " ".join(ops + ["d"]))
+            continue
         for i in sched:
             if i not in compl and rnd.random() < 0.7:
                 ops.append("c%d" % i); compl.add(i)
@@ -359,9 +365,21 @@ def spec_slab(q, a):
     if a.endswith("panicked=1"):
         return "the executor panicked on a history of schedule / complete / dispatch"
     got = [int(x) for x in a.split("delivered=[")[1].split("]")[0].split(",") if x]
-    want = sorted({int(o[1:]) for o in ops if o[0] == "c"} & {int(o[1:]) for o in ops if o[0] == "s"})
+    gone = {int(x) for x in a.split("dropped=[")[1].split("]")[0].split(",") if x}
     if len(got) != len(set(got)):
         return "an output was delivered twice: %s" % got
+    if "x" in ops:
+        before = ops[:ops.index("x")]
+        held = {int(o[1:]) for o in before if o[0] == "s"}
+        if not held <= gone:
+            return ("the executor was removed and dropped, but the futures of tasks %s were not dropped (their wakers are also held "
+                    "outside the executor)" % sorted(held - gone))
+        if not set(got) <= {int(o[1:]) for o in before if o[0] == "c"} & held:
+            return "delivered %s: an output of a task that had not completed before the executor went" % got
+        return None
+    if not set(got) <= gone:
+        return "tasks %s were delivered but their futures were not dropped" % sorted(set(got) - gone)
+    want = sorted({int(o[1:]) for o in ops if o[0] == "c"} & {int(o[1:]) for o in ops if o[0] == "s"})
     if sorted(got) != want:
         return "tasks %s completed and the loop kept dispatching, delivered %s (an output was lost, or delivered for a task that never completed)" % (want, got)
     return None
